@@ -35,6 +35,13 @@ pub struct H263State {
 
     /// All previously-encoded reference pictures.
     reference_states: HashMap<u16, DecodedPicture>,
+
+    /// The last decoded picture, if it was disposable.
+    ///
+    /// Disposable pictures are never referenced and their temporal reference
+    /// may coincide with the reference picture's, so they are kept out of
+    /// `reference_states`.
+    disposable_picture: Option<DecodedPicture>,
 }
 
 impl H263State {
@@ -46,6 +53,7 @@ impl H263State {
             reference_picture: None,
             running_options: PictureOption::empty(),
             reference_states: HashMap::new(),
+            disposable_picture: None,
         }
     }
 
@@ -59,7 +67,9 @@ impl H263State {
     ///
     /// If `None`, then no pictures have yet to be decoded.
     pub fn get_last_picture(&self) -> Option<&DecodedPicture> {
-        if self.last_picture.is_none() {
+        if let Some(picture) = &self.disposable_picture {
+            Some(picture)
+        } else if self.last_picture.is_none() {
             None
         } else {
             self.reference_states.get(&self.last_picture.unwrap())
@@ -471,15 +481,18 @@ impl H263State {
 
             let this_tr = next_decoded_picture.as_header().temporal_reference;
             self.last_picture = Some(this_tr);
-            if !next_decoded_picture
+            if next_decoded_picture
                 .as_header()
                 .picture_type
                 .is_disposable()
             {
+                self.disposable_picture = Some(next_decoded_picture);
+            } else {
                 self.reference_picture = Some(this_tr);
+                self.disposable_picture = None;
+                self.reference_states.insert(this_tr, next_decoded_picture);
             }
 
-            self.reference_states.insert(this_tr, next_decoded_picture);
             self.cleanup_buffers();
 
             reader.commit();
